@@ -886,6 +886,291 @@ def rule_decider_before_score(ctx):
     ctx.floor("direct calculate_score calls in the fuzzy dispatchers", n, 2)
 
 
+def rule_window_complete(ctx):
+    """`fuzzy_match_optimal` answers None when its window holds no match (setup finds a needle character without a
+    column).  That is only a verdict about the haystack if the window is the prefilter's: [start, end) with `end` behind
+    the LAST occurrence of the last needle character.  So every call passes as `end` the end component of a prefilter
+    result computed with only_greedy = false (or forwards its own `end`), and the function hands exactly
+    haystack[start..end] to the slab."""
+    facts = ctx.facts
+    OPT = "fuzzy_optimal::<impl Matcher>::fuzzy_match_optimal"
+    fo = get_fn(facts, M, OPT)
+    names = {fo.names.get(l): l for l in range(1, fo.arg_count + 1)}
+    for k in ("haystack", "start", "end"):
+        if k not in names:
+            raise Inconclusive("fuzzy_match_optimal: parameter `%s` not found" % k)
+
+    def is_arg(e, l):
+        e = strip_casts(e)
+        while e[0] in ("ref", "deref"):
+            e = strip_casts(e[1])
+        return e[0] == "arg" and e[1] == l
+    # the slab window
+    al = [(bi, t) for bi, t in fo.calls(lambda t: callee(t).endswith("MatrixSlab::alloc"))]
+    if len(al) != 1:
+        raise Inconclusive("fuzzy_match_optimal: %d slab allocations" % len(al))
+    w = fo.expr_of_operand(al[0][1]["args"][1])
+    idx = [x for x in walk(w) if x[0] == "call" and str(x[1]).endswith("::index")]
+    okw = False
+    if len(idx) == 1 and is_arg(idx[0][2][0], names["haystack"]):
+        r = strip_casts(idx[0][2][1])
+        if r[0] == "agg" and str(r[1]).endswith("Range::Range") and is_arg(r[2].get("start"), names["start"]) and is_arg(r[2].get("end"), names["end"]):
+            okw = True
+    if okw:
+        ctx.ok(site(fo, al[0][0]), "the matrix is built over haystack[start..end] of the parameters")
+    else:
+        ctx.violation(OPT + "|slab-window|1", site(fo, al[0][0]), "the matrix is built over %s, not over the caller's window haystack[start..end]: a None from setup no longer means `no match in the prefilter window`" % show(w)[:100])
+    n = 0
+    for f2, bi, t in calls_to(facts, M, lambda t_: callee(t_) == OPT):
+        n += 1
+        e = strip_casts(f2.expr_of_operand(t["args"][names["end"] - 1]))
+        key = "%s|optimal-end|%d" % (f2.path, n)
+        if f2.path == OPT and is_arg(e, names["end"]):
+            ctx.ok(site(f2, bi), "recursive call forwards its own `end`")
+            continue
+        good = False
+        if e[0] == "field":
+            src = [x for x in walk(e[1]) if x[0] == "call" and "prefilter::<impl Matcher>::prefilter_" in str(x[1])]
+            if src:
+                pc = src[0]
+                og = strip_casts(pc[2][-1])
+                last = {"prefilter_ascii": "2", "prefilter_non_ascii": "1"}.get(str(pc[1]).rsplit("::", 1)[1])
+                if og[0] == "const" and og[1] in (0, False) and e[2] == last:
+                    good = True
+        if good:
+            ctx.ok(site(f2, bi), "`end` is the end of the full prefilter window (only_greedy = false)")
+        else:
+            ctx.violation(key, site(f2, bi), "fuzzy_match_optimal is given end = %s, which is not the end of a full prefilter window: every match may lie behind it, and the "
+                          "optimal entry points then answer None where the greedy ones answer Some" % show(e)[:90])
+    ctx.floor("call sites of fuzzy_match_optimal", n, 3)
+
+
+def needle_walks(facts, fn, needle_local):
+    """Places where `fn` (after helper folding) establishes that every character of needle[1..] occurs in order:
+    [(header, success_block, style)].
+      style 'needle': a loop over needle[1..] (any spelling) whose body can leave with None; success = loop exhaustion.
+      style 'haystack': a loop over (part of) the haystack that advances an iterator over needle[1..]; it succeeds on the
+                        edge where that iterator is exhausted, and its own exhaustion leads to `return None`."""
+    from props.c11 import for_loops
+
+    def is_needle(e, depth=0):
+        e = strip_casts(e)
+        if depth > 12 or not isinstance(e, tuple) or not e:
+            return False
+        if e[0] == "arg":
+            return e[1] == needle_local
+        if e[0] in ("ref", "deref", "field", "downcast"):
+            return is_needle(e[1], depth + 1)
+        if e[0] == "cast":
+            return is_needle(e[2], depth + 1)
+        if e[0] == "call" and e[2]:
+            return is_needle(e[2][0], depth + 1)
+        return False
+
+    def needle_tail(e):
+        for x in walk(e):
+            if x[0] == "call" and str(x[1]).endswith("::index") and is_needle(x[2][0]) and x[2][1][0] == "agg" and str(x[2][1][1]).endswith("RangeFrom::RangeFrom") \
+                    and tuple(strip_casts(x[2][1][2].get("start", ("?",)))[:2]) == ("const", 1):
+                return True
+            if x[0] == "field" and x[2] == "1" and any(y[0] == "call" and str(y[1]).endswith("::split_first") and is_needle(y[2][0]) for y in walk(x[1])):
+                return True
+            if x[0] == "call" and str(x[1]).endswith("Iterator::skip") and is_needle(x[2][0]) and tuple(strip_casts(x[2][1])[:2]) == ("const", 1):
+                return True
+        return False
+    out = []
+    nones = set(bi for bi, t in fn.calls(lambda t: callee(t).endswith("from_residual")))
+    for bi, si, st_ in fn.stmts(lambda s_: s_["k"] == "assign" and s_["rv"].get("agg") == "adt" and s_["rv"].get("variant") == "None"):
+        nones.add(bi)
+    for h, body, nxt in for_loops(fn):
+        if nxt is None:
+            continue
+        src = fn.expr_of_operand(fn.blocks[nxt[0]]["term"]["args"][0])
+        if needle_tail(src):
+            if any(fn.blocks[bi]["term"]["k"] == "call" and callee(fn.blocks[bi]["term"]).endswith("Try>::branch") for bi in body):
+                out.append((h, nxt[2], "needle"))
+            continue
+        inner = []
+        for bi in body:
+            t = fn.blocks[bi]["term"]
+            if bi != nxt[0] and t["k"] == "call" and callee(t).endswith("::next") and needle_tail(fn.expr_of_operand(t["args"][0])) and t["target"] is not None:
+                # the needle only advances behind a successful comparison of the current haystack character
+                def eq_guard(g):
+                    e, vals = g[3], g[2]
+                    txt = show(e)
+                    if (e[0] == "bin" and e[1] == "Eq") or "PartialEq::eq" in txt or txt.startswith("std::cmp::PartialEq::eq"):
+                        return vals != [0]
+                    if (e[0] == "bin" and e[1] == "Ne") or "PartialEq::ne" in txt:
+                        return vals == [0]
+                    return False
+                adv_ok = any(eq_guard(g) for g in guards_of(fn, bi, start=h))
+                if not adv_ok:
+                    continue
+                sw = fn.blocks[t["target"]]["term"]
+                if sw["k"] == "switch":
+                    e = fn.expr_of_operand(sw["discr"])
+                    if e[0] == "discr":
+                        # the edge for None (0): arms or otherwise
+                        none_t = [bb for v, bb in sw["arms"] if v == 0] or ([sw["otherwise"]] if all(v != 0 for v, _ in sw["arms"]) else [])
+                        inner += none_t
+        if inner:
+            for x in inner:
+                out.append((h, x, "haystack"))
+    # needle[1..] is empty: the first `next()` of an iterator over it (outside any loop) says None -- nothing to walk
+    in_loops = set()
+    for h, body, srcs in fn.loops():
+        in_loops |= set(body)
+    for bi, t in fn.calls(lambda t: callee(t).endswith("::next")):
+        if bi in in_loops or t["target"] is None or not needle_tail(fn.expr_of_operand(t["args"][0])):
+            continue
+        sw = fn.blocks[t["target"]]["term"]
+        if sw["k"] == "switch" and fn.expr_of_operand(sw["discr"])[0] == "discr":
+            none_t = [bb for v, bb in sw["arms"] if v == 0] or ([sw["otherwise"]] if all(v != 0 for v, _ in sw["arms"]) else [])
+            for x in none_t:
+                out.append((bi, x, "empty-tail"))
+    return out
+
+
+def rule_greedy_complete(ctx):
+    """The greedy matcher is a decider too: it hands [start, end) to the never-rejecting `calculate_score`.  Unless both
+    strings are ASCII (then prefilter_ascii has already found every needle character), every path to that call passes the
+    success exit of a complete walk over needle[1..]; a window taken on trust from the caller (whose non-ASCII prefilter
+    only looked at the first and last character) is not a match."""
+    facts = ctx.facts
+    fn = get_fn(facts, M, "fuzzy_greedy::<impl Matcher>::fuzzy_match_greedy_")
+    nl = [l for l in range(1, fn.arg_count + 1) if fn.names.get(l) == "needle"]
+    if not nl:
+        raise Inconclusive("fuzzy_match_greedy_: no `needle` parameter")
+    walks = needle_walks(facts, fn, nl[0])
+    ctx.floor("complete walks over needle[1..] in the greedy matcher", len(walks), 1)
+    succ = set(w[1] for w in walks)
+    sinks = [bi for bi, t in fn.calls(lambda t: callee(t) == "score::<impl Matcher>::calculate_score")]
+    if not sinks:
+        raise Inconclusive("fuzzy_match_greedy_: no calculate_score call")
+
+    def ascii_key(bi):
+        """the `<X as Char>::ASCII` constant a switch tests, if it tests one"""
+        t = fn.blocks[bi]["term"]
+        p_ = t["discr"].get("move") or t["discr"].get("copy")
+        k_ = t["discr"].get("const")
+        if k_ is None and p_ is not None and not p_["p"]:
+            ds = fn.defs.get(p_["l"], [])
+            if len(ds) == 1 and ds[0][2] == "assign" and isinstance(ds[0][3].get("use"), dict):
+                k_ = ds[0][3]["use"].get("const")
+        if isinstance(k_, dict) and str(k_.get("text", "")).endswith("::ASCII"):
+            return str(k_["text"])
+        return None
+    keys = sorted(set(k for k in (ascii_key(bi) for bi in sorted(fn.live) if fn.blocks[bi]["term"]["k"] == "switch") if k))
+
+    none_blocks = set(bi for bi, t in fn.calls(lambda t: callee(t).endswith("from_residual")) if fn.blocks[bi].get("inl"))
+    for bi, si, st_ in fn.stmts(lambda s_: s_["k"] == "assign" and s_["rv"].get("agg") == "adt" and s_["rv"].get("variant") == "None"):
+        if fn.blocks[bi].get("inl"):
+            none_blocks.add(bi)
+
+    # Option locals that start as None and become Some somewhere: (block -> [(local, is_some)])
+    opt_assigns = {}
+    opt_locals = set()
+
+    def opt_variant(rv, depth=0):
+        """'Some' / 'None' if the rvalue is that Option literal (directly or through a move of a temporary holding one)"""
+        if rv.get("agg") == "adt" and str(rv.get("adt", "")).endswith("Option") and rv.get("variant") in ("None", "Some"):
+            return rv["variant"]
+        u = rv.get("use")
+        if isinstance(u, dict) and depth < 3:
+            p_ = u.get("move") or u.get("copy")
+            if p_ is not None and not p_["p"]:
+                ds = fn.defs.get(p_["l"], [])
+                if len(ds) == 1 and ds[0][2] == "assign":
+                    return opt_variant(ds[0][3], depth + 1)
+        return None
+    cand = {}
+    for l_, ds in fn.defs.items():
+        if l_ == 0 or not ds or l_ <= fn.arg_count:
+            continue
+        vs = [opt_variant(d[3]) if d[2] == "assign" else None for d in ds]
+        if all(v is not None for v in vs) and "None" in vs and "Some" in vs and fn.names.get(l_):
+            cand[l_] = [(d[0], v == "Some") for d, v in zip(ds, vs)]
+    for l_, xs in cand.items():
+        opt_locals.add(l_)
+        for b_, v_ in xs:
+            opt_assigns.setdefault(b_, []).append((l_, v_))
+
+    def tracked_option(e):
+        """discr(L) / discr(Try::branch(L)) for a tracked Option local L -> (through `?`, L)"""
+        if e[0] != "discr":
+            return None
+        x = e[1]
+        via_try = False
+        if x[0] == "call" and str(x[1]).endswith("Try>::branch"):
+            via_try = True
+            x = x[2][0]
+        while x[0] in ("ref", "deref", "cast"):
+            x = x[2] if x[0] == "cast" else x[1]
+        if x[0] == "local" and x[1] in opt_locals:
+            return via_try, x[1]
+        return None
+
+    def reach_sink(assign):
+        """is calculate_score reachable without a walk exit?  State: (block, a folded-in helper has just produced None):
+        the `?` applied to that helper's result in the caller can then only take its Break edge."""
+        seen, work = set(), [(0, False, frozenset())]
+        while work:
+            bi, pend, some = work.pop()
+            if (bi, pend, some) in seen or bi in succ:
+                continue
+            seen.add((bi, pend, some))
+            if bi in sinks:
+                return bi
+            if bi in none_blocks:
+                pend = True
+            for l_, v_ in opt_assigns.get(bi, ()):
+                some = (some | {l_}) if v_ else (some - {l_})
+            t = fn.blocks[bi]["term"]
+            k = t["k"]
+            if k == "goto":
+                work.append((t["target"], pend, some))
+            elif k == "switch":
+                ak = ascii_key(bi)
+                e = fn.expr_of_operand(t["discr"])
+                tl = tracked_option(e)
+                is_try = e[0] == "discr" and any(x[0] == "call" and str(x[1]).endswith("Try>::branch") for x in walk(e)) and not fn.blocks[bi].get("inl")
+                if ak is not None and ak in assign:
+                    v = 1 if assign[ak] else 0
+                    tg = [bb for vv, bb in t["arms"] if vv == v]
+                    work.append((tg[0] if tg else t["otherwise"], pend, some))
+                elif is_try and pend:
+                    work += [(bb, False, some) for vv, bb in t["arms"] if vv == 1]
+                elif tl is not None:
+                    # an Option local that is None unless a walk exit assigned Some to it on this path
+                    via_try, l_ = tl
+                    want = (0 if via_try else 1) if l_ in some else (1 if via_try else 0)
+                    tg = [bb for vv, bb in t["arms"] if vv == want]
+                    work.append((tg[0] if tg else t["otherwise"], pend, some))
+                else:
+                    work += [(bb, pend, some) for _, bb in t["arms"]] + [(t["otherwise"], pend, some)]
+            elif k in ("call", "assert", "drop") and t.get("target") is not None:
+                work.append((t["target"], pend, some))
+        return None
+    bad = []
+    import itertools
+    for vals in itertools.product((True, False), repeat=len(keys)):
+        if keys and all(vals):
+            continue        # ASCII x ASCII: prefilter_ascii has walked the needle (C01.decider-before-score)
+        hit = reach_sink(dict(zip(keys, vals)))
+        if hit is not None:
+            bad.append((hit, dict(zip(keys, vals))))
+    if bad and len(keys) > 2:
+        raise Inconclusive("fuzzy_match_greedy_: %d different ASCII constants guard the walk (%s)" % (len(keys), keys))
+    if not keys and reach_sink({}) is not None:
+        bad = [(reach_sink({}), {})]
+    bad = [b_[0] for b_ in bad]
+    if bad:
+        ctx.violation("fuzzy_greedy::<impl Matcher>::fuzzy_match_greedy_|walk-bypassed|1", site(fn, bad[0]),
+                      "calculate_score is reachable without the walk over needle[1..] on a path that is not restricted to ASCII x ASCII: for a code-point haystack the window "
+                      "was only checked for its first and last character, so Some(score) with a truncated / wrong index list is returned for haystacks that do not contain the needle")
+    else:
+        ctx.ok(site(fn, sinks[0]), "every non-ASCII path to calculate_score passes the success exit of a complete walk over needle[1..] (%d walk exit(s))" % len(succ))
+
+
 def rule_entry_order(ctx):
     facts = ctx.facts
     for name in ("Matcher::fuzzy_matcher_impl", "Matcher::fuzzy_match_greedy_impl", "Matcher::substring_match_impl"):
@@ -929,4 +1214,6 @@ def rules(ctx):
     ctx.run_rule("C01.repr-only", rule_repr_only)
     ctx.run_rule("C01.window", rule_window)
     ctx.run_rule("C01.entry-order", rule_entry_order)
+    ctx.run_rule("C01.greedy-complete", rule_greedy_complete)
+    ctx.run_rule("C01.window-complete", rule_window_complete)
     ctx.run_rule("C01.decider-before-score", rule_decider_before_score)
